@@ -364,6 +364,13 @@ func (w *cluWorld) execOp(ctx context.Context, op cluOp, plan map[string]int, re
 	case "create":
 		opts := w.deployOpts(op)
 		w.setFlag(w.apps, op.App+"/"+op.Entry, true)
+		if op.Secs > 0 {
+			for _, n := range sortedKeys(w.engines) {
+				w.engines[n].SetSlow("Create", time.Duration(op.Secs)*time.Second)
+				defer w.engines[n].SetSlow("Create", 0)
+			}
+			w.probe("create_on_slow_machines")
+		}
 		ch, err := cal.CreateWorkload(ctx, opts)
 		if err != nil {
 			out.err, out.failed = err, true
@@ -579,6 +586,13 @@ func (w *cluWorld) execOp(ctx context.Context, op cluOp, plan map[string]int, re
 	case "advance":
 		time.Sleep(time.Duration(op.Secs) * time.Second)
 		out.skipped = true
+	case "list_pod_nodes":
+		ch, err := cal.ListPodNodes(ctx, &coretypes.ListNodesOptions{Podname: w.podName(op.Pod), All: true, CallInfo: true})
+		if err == nil {
+			for range ch {
+			}
+		}
+		out.err, out.failed = err, err != nil
 	case "rm_image":
 		// C21: an operation that acts on the *list* of selected nodes (no map in between):
 		// every selected node exactly once, whatever repeats the include list has
